@@ -1,134 +1,105 @@
-//! Runs the implementation on generated cases. Usage: kt_harness <prop> <seed> <n> <out-dir> [corpus files...]
+//! Executes case lines on the implementation (the crates of /repo's working tree, built with
+//! `--cfg kmertools_verif`).  Usage: kt_harness <cases-file> <out-file> <scratch-dir>
+//! One result line per case line; the same case lines are given to the model extracted from Coq.
 use kmer::kmer::KmerGenerator;
+use kmer::kmer_minimisers::KmerMinimiserGenerator;
 use kmer::minimiser::MinimiserGenerator;
-use std::io::Write;
+use std::io::{BufRead, Write};
 
-struct Rng(u64);
-impl Rng {
-    fn next(&mut self) -> u64 {
-        self.0 = self.0.wrapping_add(0x9E3779B97F4A7C15);
-        let mut z = self.0;
-        z = (z ^ (z >> 30)).wrapping_mul(0xBF58476D1CE4E5B9);
-        z = (z ^ (z >> 27)).wrapping_mul(0x94D049BB133111EB);
-        z ^ (z >> 31)
-    }
-    fn below(&mut self, n: u64) -> u64 { self.next() % n }
-}
+mod fileops;
 
-fn hex(b: &[u8]) -> String {
+pub fn hex(b: &[u8]) -> String {
     if b.is_empty() { "-".into() } else { b.iter().map(|x| format!("{:02x}", x)).collect() }
 }
-fn unhex(s: &str) -> Vec<u8> {
+pub fn unhex(s: &str) -> Vec<u8> {
     if s == "-" { return vec![]; }
     (0..s.len() / 2).map(|i| u8::from_str_radix(&s[2 * i..2 * i + 2], 16).unwrap()).collect()
 }
-
-/// structured sequence: mostly nucleotides, ambiguity rate drawn per case
-fn gen_seq(r: &mut Rng, n: usize) -> Vec<u8> {
-    let amb_pct = [0u64, 1, 5, 15][r.below(4) as usize];
-    let alpha: &[u8] = match r.below(4) { 0 => b"AC", 1 => b"A", 2 => b"ACGT", _ => b"ACGTacgtUu" };
-    (0..n).map(|_| {
-        let x = r.below(100);
-        if x >= amb_pct { alpha[r.below(alpha.len() as u64) as usize] }
-        else if r.below(3) > 0 { b"NnRYKM-*."[r.below(9) as usize] }
-        else { 4 + r.below(252) as u8 } // any byte except the unspecified 0..3
-    }).collect()
+pub fn unhex_list(s: &str) -> Vec<Vec<u8>> {
+    if s == "_" { return vec![]; }
+    s.split(',').map(unhex).collect()
 }
 
 fn run_kg(k: usize, s: &[u8]) -> String {
-    let res = std::panic::catch_unwind(|| {
-        let mut it = KmerGenerator::new(s, k);
-        let v: Vec<String> = it.by_ref().map(|(f, r)| format!("{}:{}", f, r)).collect();
-        // exhausted iterators stay exhausted
-        assert!(it.next().is_none());
-        v.join(",")
-    });
-    res.unwrap_or_else(|_| "PANIC".into())
+    let mut it = KmerGenerator::new(s, k);
+    let v: Vec<String> = it.by_ref().map(|(f, r)| format!("{}:{}", f, r)).collect();
+    // exhausted iterators stay exhausted
+    assert!(it.next().is_none());
+    v.join(",")
 }
 
 fn run_mg(w: usize, m: usize, s: &[u8]) -> String {
-    let res = std::panic::catch_unwind(|| {
-        let mut it = MinimiserGenerator::new(s, w, m);
-        let v: Vec<String> = it.by_ref().map(|(x, a, b)| format!("{}:{}:{}", x, a, b)).collect();
-        assert!(it.next().is_none());
-        v.join(",")
-    });
-    res.unwrap_or_else(|_| "PANIC".into())
+    let mut it = MinimiserGenerator::new(s, w, m);
+    let v: Vec<String> = it.by_ref().map(|(x, a, b)| format!("{}:{}:{}", x, a, b)).collect();
+    assert!(it.next().is_none());
+    v.join(",")
 }
 
-/// low-complexity sequences that force ties between equal m-mers
-fn gen_lowc(r: &mut Rng, n: usize) -> Vec<u8> {
-    let period = 1 + r.below(6) as usize;
-    let unit: Vec<u8> = (0..period).map(|_| b"ACGT"[r.below(4) as usize]).collect();
-    (0..n).map(|i| if r.below(40) == 0 { b'N' } else if r.below(25) == 0 { b"ACGT"[r.below(4) as usize] } else { unit[i % period] }).collect()
+fn run_kmg(w: usize, m: usize, s: &[u8]) -> String {
+    let mut it = KmerMinimiserGenerator::new(s, w, m);
+    let v: Vec<String> = it
+        .by_ref()
+        .map(|(x, a, b, ks)| format!("{}:{}:{}={}", x, a, b, ks.iter().map(|k| k.to_string()).collect::<Vec<_>>().join("+")))
+        .collect();
+    assert!(it.next().is_none());
+    v.join(",")
+}
+
+fn run_posmap(k: usize) -> String {
+    let (pos_map, pos_kmer, count) = KmerGenerator::kmer_pos_maps(k);
+    let mut vec = vec![];
+    let mut ranks = vec![];
+    for pos in 0..count {
+        match pos_kmer.get(&pos) {
+            Some(&x) => {
+                vec.push(x.to_string());
+                ranks.push(pos_map.get(x as usize).map(|p| p.to_string()).unwrap_or("?".into()));
+            }
+            None => { vec.push("?".into()); ranks.push("?".into()); }
+        }
+    }
+    if pos_kmer.len() != count || pos_map.len() as u64 != 4u64.pow(k as u32) { return format!("BADSIZE {} {} {}", pos_kmer.len(), count, pos_map.len()); }
+    format!("{}|{}|{}", count, vec.join(","), ranks.join(","))
+}
+
+fn run_header(k: usize) -> String {
+    let c = composition::oligo::OligoComputer::new("/nonexistent.fa".into(), "/nonexistent.out".into(), k);
+    c.verif_header().join(",")
+}
+
+fn exec(line: &str, scratch: &str) -> String {
+    let p: Vec<&str> = line.split(' ').collect();
+    match p[0] {
+        "kg" => run_kg(p[1].parse().unwrap(), &unhex(p[2])),
+        "rc" => KmerGenerator::rev_comp(p[2].parse().unwrap(), p[1].parse().unwrap()).to_string(),
+        "dec" => kmer::numeric_to_kmer(p[2].parse().unwrap(), p[1].parse().unwrap()),
+        "posmap" => run_posmap(p[1].parse().unwrap()),
+        "header" => run_header(p[1].parse().unwrap()),
+        "mg" => run_mg(p[1].parse().unwrap(), p[2].parse().unwrap(), &unhex(p[3])),
+        "kmg" => run_kmg(p[1].parse().unwrap(), p[2].parse().unwrap(), &unhex(p[3])),
+        _ => fileops::exec(&p, scratch),
+    }
 }
 
 fn main() {
     let a: Vec<String> = std::env::args().collect();
-    let (prop, seed, n, dir) = (&a[1], a[2].parse::<u64>().unwrap(), a[3].parse::<usize>().unwrap(), &a[4]);
     std::panic::set_hook(Box::new(|_| {}));
-    let mut cases = std::io::BufWriter::new(std::fs::File::create(format!("{}/cases.txt", dir)).unwrap());
-    let mut out = std::io::BufWriter::new(std::fs::File::create(format!("{}/impl.txt", dir)).unwrap());
-    let mut nonempty = 0usize;
-    let mut emit = |line: String, res: String, cases: &mut dyn Write, out: &mut dyn Write| {
-        if !res.is_empty() { nonempty += 1; }
-        writeln!(cases, "{}", line).unwrap();
+    let cases = std::io::BufReader::new(std::fs::File::open(&a[1]).unwrap());
+    let mut out = std::io::BufWriter::new(std::fs::File::create(&a[2]).unwrap());
+    let scratch = a[3].clone();
+    std::fs::create_dir_all(&scratch).unwrap();
+    for line in cases.lines() {
+        let line = line.unwrap();
+        let sc = scratch.clone();
+        let l2 = line.clone();
+        let res = std::panic::catch_unwind(move || exec(&l2, &sc));
+        let res = match res {
+            Ok(r) => r,
+            Err(e) => {
+                let msg = e.downcast_ref::<String>().cloned().or_else(|| e.downcast_ref::<&str>().map(|s| s.to_string())).unwrap_or_default();
+                format!("PANIC {}", msg.replace('\n', " "))
+            }
+        };
         writeln!(out, "{}", res).unwrap();
-    };
-    match prop.as_str() {
-        "C01" => {
-            // corpus first
-            for f in &a[5..] {
-                for line in std::fs::read_to_string(f).unwrap().lines() {
-                    let p: Vec<&str> = line.split(' ').collect();
-                    if p.len() == 3 && p[0] == "kg" {
-                        let res = run_kg(p[1].parse().unwrap(), &unhex(p[2]));
-                        emit(line.to_string(), res, &mut cases, &mut out);
-                    }
-                }
-            }
-            // exhaustive alphabet sweep: every specified byte alone (k=1) and inside a clean context (k=2)
-            if n > 0 {
-                for b in 4u16..256 {
-                    let b = b as u8;
-                    let res = run_kg(1, &[b]);
-                    emit(format!("kg 1 {}", hex(&[b])), res, &mut cases, &mut out);
-                    let s = [b'A', b'C', b, b'G', b'T'];
-                    let res = run_kg(2, &s);
-                    emit(format!("kg 2 {}", hex(&s)), res, &mut cases, &mut out);
-                }
-            }
-            let mut r = Rng(seed);
-            for _ in 0..n {
-                let k = match r.below(4) { 0 => [1usize, 15, 16, 17, 30, 31][r.below(6) as usize], _ => 1 + r.below(31) as usize };
-                let len = match r.below(7) { 0 => 0, 1 => k - 1, 2 => k, 3 => k + 1, 4 => 2 * k, 5 => 3 * k + 1, _ => r.below(300) as usize };
-                let s = gen_seq(&mut r, len);
-                let res = run_kg(k, &s);
-                emit(format!("kg {} {}", k, hex(&s)), res, &mut cases, &mut out);
-            }
-        }
-        "C09" => {
-            for f in &a[5..] {
-                for line in std::fs::read_to_string(f).unwrap().lines() {
-                    let p: Vec<&str> = line.split(' ').collect();
-                    if p.len() == 4 && p[0] == "mg" {
-                        let res = run_mg(p[1].parse().unwrap(), p[2].parse().unwrap(), &unhex(p[3]));
-                        emit(line.to_string(), res, &mut cases, &mut out);
-                    }
-                }
-            }
-            let mut r = Rng(seed);
-            for _ in 0..n {
-                let m = match r.below(3) { 0 => 1 + r.below(4) as usize, _ => 1 + r.below(31) as usize };
-                let w = m + match r.below(4) { 0 => 0, 1 => r.below(4) as usize, _ => r.below(60) as usize };
-                let len = match r.below(8) { 0 => 0, 1 => m, 2 => w - 1, 3 => w, 4 => w + 1, 5 => 2 * w + 3, _ => r.below(400) as usize };
-                let s = if r.below(2) == 0 { gen_lowc(&mut r, len) } else { gen_seq(&mut r, len) };
-                let res = run_mg(w, m, &s);
-                emit(format!("mg {} {} {}", w, m, hex(&s)), res, &mut cases, &mut out);
-            }
-        }
-        _ => panic!("unknown property"),
     }
-    drop(emit);
-    println!("{{\"nonempty\": {}}}", nonempty);
 }
